@@ -31,6 +31,7 @@ from fcp.result import Result, Ok
 from fcp.specs.v2 import FcpV2
 from fcp.error import FcpError, error
 from fcp.types import Nil
+from fcp.encoding import make_encoder, PackedEncoderContext
 
 from .can_c_writer import CanCWriter
 
@@ -108,8 +109,21 @@ class Generator(CodeGenerator):
             self: Any, fcp: FcpV2, extension: Any
         ) -> Result[Nil, FcpError]:
             """Check if extension has a valid type."""
-            struct = fcp.get_struct(extension.type)
-            size = sum([field.type.get_length() for field in struct.unwrap().fields])
+            if extension.protocol != "can":
+                return Ok(())
+
+            encoder = make_encoder(
+                "packed", fcp, PackedEncoderContext().with_unroll_arrays(True)
+            )
+            try:
+                encoding = encoder.generate(extension)
+            except ValueError as e:
+                return error(
+                    f"Impl {extension.name} has no fixed size: {e}",
+                    node=extension,
+                )
+
+            size = sum([piece.bitlength for piece in encoding])
             if size > 64:
                 return error(
                     f"Impl {extension.name} is way too big at {size} bits",
